@@ -172,6 +172,268 @@ theorem c03_witness_refine_on_nil_int : ¬ c03_history_full .nilableFlag false :
   have := hfull [.refine, .nilable]
   revert this; decide
 
+/-! ## Wrapped schemas: `Transform` / `Pipe` chains around a modified schema (core/transform.go) -/
+
+theorem internals_attach (s : WS) (n : Nat) (w : W) : (s.attach n w).internals = s.internals := by
+  cases w <;> rfl
+
+/-- Every node of a wrapper chain carries the base schema's modifier fields (each constructor clones
+    its source's internals), so `t.source.Internals()` answers for the base at every level. -/
+theorem internals_wrapFrom (ws : List W) : ∀ (s : WS) (n : Nat),
+    (s.wrapFrom n ws).internals = s.internals := by
+  induction ws with
+  | nil => intro s n; rfl
+  | cons w ws ih => intro s n; simp only [WS.wrapFrom]; rw [ih, internals_attach]
+
+theorem internals_wrap (i : I) (ws : List W) : (wrap i ws).internals = i :=
+  internals_wrapFrom ws (.base i) 1
+
+/-- One wrapper on top of a result + log, nothing short-circuited. -/
+def step (p : R × List Call) (n : Nat) (w : W) : R × List Call :=
+  match p, w with
+  | (.ok v, log), .tf => (.ok (.app n v), log ++ [⟨false, n, v⟩])
+  | (.ok v, log), .pipe => (.ok v, log ++ [⟨true, n, v⟩])
+  | (.err o, log), _ => (.err o, log)
+
+def extendP (p : R × List Call) (n : Nat) (ws : List W) : R × List Call :=
+  match p with
+  | (.ok v, log) => ((runAll v n ws).1 |> .ok, log ++ (runAll v n ws).2)
+  | (.err o, log) => (.err o, log)
+
+theorem parse_attach_plain (adm : Bool) (inp : In) (s : WS) (n : Nat) (w : W)
+    (h : (inp.isNil && hasDefault s.internals) = false) :
+    (s.attach n w).parse adm inp = step (s.parse adm inp) n w := by
+  cases w
+  · simp only [WS.attach, WS.parse, h, step]
+    rcases s.parse adm inp with ⟨_ | _, _⟩ <;> simp
+  · simp only [WS.attach, WS.parse, step]
+    rcases s.parse adm inp with ⟨_ | _, _⟩ <;> rfl
+
+theorem extendP_step (p : R × List Call) (n : Nat) (w : W) (ws : List W) :
+    extendP (step p n w) (n + 1) ws = extendP p n (w :: ws) := by
+  rcases p with ⟨_ | _, log⟩ <;> cases w <;> simp [step, extendP, runAll, List.append_assoc]
+
+theorem extendP_nil (p : R × List Call) (n : Nat) : extendP p n [] = p := by
+  rcases p with ⟨_ | _, log⟩ <;> simp [extendP, runAll]
+
+/-- Without the default short-circuit a wrapper chain runs every wrapper once, in order, each on
+    the output of the previous one (induction over the chain, for any inner schema). -/
+theorem parse_wrapFrom_plain (adm : Bool) (inp : In) (ws : List W) : ∀ (s : WS) (n : Nat),
+    (inp.isNil && hasDefault s.internals) = false →
+    (s.wrapFrom n ws).parse adm inp = extendP (s.parse adm inp) n ws := by
+  induction ws with
+  | nil => intro s n _; simp only [WS.wrapFrom]; rw [extendP_nil]
+  | cons w ws ih =>
+    intro s n h
+    simp only [WS.wrapFrom]
+    rw [ih (s.attach n w) (n + 1) (by rw [internals_attach]; exact h), parse_attach_plain adm inp s n w h,
+      extendP_step]
+
+theorem extendP_base (r : R) (n : Nat) (ws : List W) : extendP (r, []) n ws = extend r n ws := by
+  cases r <;> simp [extendP, extend]
+
+/-- **No default, or a non-nil input**: the wrapped schema yields the base schema's result passed
+    through `f₁ … fₙ` (and pipe targets), each exactly once and in order; an error of the base stays
+    that error and no callback runs. This covers the prefault (validated by the base first), the
+    Optional/Nilable nil, and every non-nil input. -/
+theorem c03_wrapped_plain (adm : Bool) (inp : In) (i : I) (ws : List W)
+    (h : (inp.isNil && hasDefault i) = false) :
+    (wrap i ws).parse adm inp = extend (parseBase adm i inp) 1 ws := by
+  unfold wrap
+  rw [parse_wrapFrom_plain adm inp ws (.base i) 1 h]
+  simp only [WS.parse]; rw [extendP_base]
+
+/-- The calls a chain makes when every transform is skipped: the pipe targets, each on the same value. -/
+def pipeCalls (v : V) (n : Nat) : List W → List Call
+  | [] => []
+  | .tf :: ws => pipeCalls v (n + 1) ws
+  | .pipe :: ws => ⟨true, n, v⟩ :: pipeCalls v (n + 1) ws
+
+def stepD (p : R × List Call) (n : Nat) (w : W) : R × List Call :=
+  match p, w with
+  | (.ok v, log), .pipe => (.ok v, log ++ [⟨true, n, v⟩])
+  | p, _ => p
+
+def extendD (p : R × List Call) (n : Nat) (ws : List W) : R × List Call :=
+  match p with
+  | (.ok v, log) => (.ok v, log ++ pipeCalls v n ws)
+  | (.err o, log) => (.err o, log)
+
+theorem parse_attach_default (adm : Bool) (s : WS) (n : Nat) (w : W) (h : hasDefault s.internals = true) :
+    (s.attach n w).parse adm .nil = stepD (s.parse adm .nil) n w := by
+  cases w
+  · simp only [WS.attach, WS.parse, h, In.isNil, Bool.and_self, if_true, stepD]
+    rcases s.parse adm .nil with ⟨_ | _, _⟩ <;> rfl
+  · simp only [WS.attach, WS.parse, stepD]
+    rcases s.parse adm .nil with ⟨_ | _, _⟩ <;> rfl
+
+theorem extendD_step (p : R × List Call) (n : Nat) (w : W) (ws : List W) :
+    extendD (stepD p n w) (n + 1) ws = extendD p n (w :: ws) := by
+  rcases p with ⟨_ | _, log⟩ <;> cases w <;> simp [stepD, extendD, pipeCalls, List.append_assoc]
+
+theorem parse_wrapFrom_default (adm : Bool) (ws : List W) : ∀ (s : WS) (n : Nat),
+    hasDefault s.internals = true →
+    (s.wrapFrom n ws).parse adm .nil = extendD (s.parse adm .nil) n ws := by
+  induction ws with
+  | nil => intro s n _; rcases hp : s.parse adm .nil with ⟨_ | _, log⟩ <;> simp [WS.wrapFrom, extendD, pipeCalls, hp]
+  | cons w ws ih =>
+    intro s n h
+    simp only [WS.wrapFrom]
+    rw [ih (s.attach n w) (n + 1) (by rw [internals_attach]; exact h), parse_attach_default adm s n w h,
+      extendD_step]
+
+/-- **Default set, nil input, any wrapper chain**: the result is exactly what the base schema
+    returned (the default value; or the base's error), *no transform function is called* however
+    many are chained, and the only callbacks are the pipe targets, each given that same value. -/
+theorem c03_wrapped_default (adm : Bool) (i : I) (ws : List W) (h : hasDefault i = true) :
+    (wrap i ws).parse adm .nil =
+      match baseNil adm i with
+      | .ok v => (.ok v, pipeCalls v 1 ws)
+      | .err o => (.err o, []) := by
+  unfold wrap
+  rw [parse_wrapFrom_default adm ws (.base i) 1 h]
+  simp only [WS.parse, parseBase]
+  cases baseNil adm i <;> simp [extendD]
+
+def isTf : W → Bool
+  | .tf => true
+  | .pipe => false
+
+/-- A chain of transforms only. -/
+def noPipe (ws : List W) : Bool := ws.all isTf
+
+theorem pipeCalls_noPipe (v : V) (ws : List W) : ∀ n, noPipe ws = true → pipeCalls v n ws = [] := by
+  induction ws with
+  | nil => intros; rfl
+  | cons w ws ih =>
+    intro n h
+    simp only [noPipe, List.all_cons, Bool.and_eq_true] at h
+    cases w
+    · simp only [pipeCalls]; exact ih (n + 1) (by simpa [noPipe] using h.2)
+    · simp [isTf] at h
+
+theorem pipeCalls_only_pipes (v : V) (ws : List W) : ∀ n, ∀ c ∈ pipeCalls v n ws, c.pipe = true ∧ c.arg = v := by
+  induction ws with
+  | nil => intro n c hc; simp [pipeCalls] at hc
+  | cons w ws ih =>
+    intro n c hc
+    cases w
+    · exact ih (n + 1) c hc
+    · simp only [pipeCalls, List.mem_cons] at hc
+      rcases hc with rfl | hc
+      · exact ⟨rfl, rfl⟩
+      · exact ih (n + 1) c hc
+
+/-- With a default and a nil input no transform callback is ever in the log (full strength: every
+    chain, pipes included). -/
+theorem c03_default_skips_all_transforms (adm : Bool) (i : I) (ws : List W) (h : hasDefault i = true) :
+    ∀ c ∈ ((wrap i ws).parse adm .nil).2, c.pipe = true := by
+  rw [c03_wrapped_default adm i ws h]
+  cases baseNil adm i with
+  | ok v => exact fun c hc => (pipeCalls_only_pipes v ws 1 c hc).1
+  | err o => intro c hc; simp at hc
+
+theorem hasDefault_applyAll (rule : RefineRule) (h : List Op) :
+    hasDefault (applyAll rule {} h) = h.any isDefaultOp := by
+  unfold hasDefault
+  rw [dv_applyAll, df_applyAll, any_default_iff]
+  cases lastDv h <;> cases lastDf h <;> rfl
+
+theorem mem_allOutcomes (o : Outcome) : o ∈ allOutcomes := by
+  cases o <;> (try rename_i k; cases k) <;> simp [allOutcomes]
+
+theorem specNilW_of (adm : Bool) (h : List Op) (ws : List W) (o : Outcome) (obs : R × List Call)
+    (h1 : specNil adm h o = true) (h2 : obs = specWrapped o ws) : specNilW adm h ws obs = true := by
+  unfold specNilW
+  rw [List.any_eq_true]
+  exact ⟨o, mem_allOutcomes o, by simp [h1, h2]⟩
+
+/-- The full statement for wrapped schemas: after every history and under every chain of
+    `Transform` / `Pipe` wrappers a nil input yields the documented observation — result **and**
+    callback log. (False today: `c03_witness_default_piped` and the bare-schema witnesses.) -/
+def c03_wrapped_full (rule : RefineRule) (admitsNil : Bool) : Prop :=
+  ∀ (h : List Op) (ws : List W),
+    specNilW admitsNil h ws ((wrap (applyAll rule {} h) ws).parse admitsNil .nil) = true
+
+/-- **C03 under wrappers.** For every history of the eight modifiers (any length, any order) and
+    every chain of `Transform(fᵢ)` wrappers — and chains with `Pipe` when no default is set — a nil
+    input yields: the default value with an **empty callback log**; else the validated prefault passed
+    through `f₁ … fₙ` once each in order; else the nonoptional error, nothing called; else nil passed
+    through the wrappers (Optional/Nilable/type admits nil); else a type error, nothing called. -/
+theorem c03_wrapped_partial (rule : RefineRule) (admitsNil : Bool) (h : List Op) (ws : List W)
+    (hc : clean h = true) (hp : noPipe ws = true ∨ h.any isDefaultOp = false) :
+    specNilW admitsNil h ws ((wrap (applyAll rule {} h) ws).parse admitsNil .nil) = true := by
+  have hs := c03_history_partial rule admitsNil h hc
+  have hd := hasDefault_applyAll rule h
+  have how := overwrite_applyAll rule h {} hc
+  generalize hI : applyAll rule {} h = i at hs hd how
+  apply specNilW_of admitsNil h ws (nilOutcome admitsNil i) _ hs
+  cases hany : h.any isDefaultOp with
+  | true =>
+    rw [hany] at hd
+    have hnp : noPipe ws = true := by rcases hp with hp | hp; exact hp; rw [hany] at hp; cases hp
+    rw [c03_wrapped_default admitsNil i ws hd]
+    -- with a default set and no overwrite attached the base outcome is the default
+    have hout : ∃ k, nilOutcome admitsNil i = .dflt k := by
+      unfold hasDefault at hd
+      unfold nilOutcome
+      rw [how.1]
+      rcases hdv : i.dv with _ | v
+      · rcases hdf : i.df with _ | v
+        · rw [hdv, hdf] at hd; cases hd
+        · exact ⟨true, by simp⟩
+      · exact ⟨false, by simp⟩
+    obtain ⟨k, hk⟩ := hout
+    simp only [baseNil, hk, specWrapped, pipeCalls_noPipe _ ws 1 hnp]
+  | false =>
+    rw [hany] at hd
+    rw [c03_wrapped_plain admitsNil .nil i ws (by simp [hd])]
+    -- without a default the base outcome is not the default class
+    have hnd : ∀ k, nilOutcome admitsNil i ≠ .dflt k := by
+      intro k
+      unfold hasDefault at hd
+      have h1 : i.dv = none := by cases hdv : i.dv <;> simp_all
+      have h2 : i.df = none := by cases hdf : i.df <;> simp_all
+      unfold nilOutcome
+      rw [h1, h2]
+      simp only
+      split <;> (try split) <;> (try split) <;> (try split) <;> (try split) <;> simp
+    simp only [parseBase, baseNil]
+    cases ho : nilOutcome admitsNil i with
+    | dflt k => exact absurd ho (hnd k)
+    | _ => simp [specWrapped, extend]
+
+/-- `String().Default("dflt").Pipe(T).Parse(nil)`: `ZodPipe.Parse` has no default short-circuit, the
+    pipe target is run on the default value (and a `.Transform(f)` attached after the pipe then skips
+    `f` but not `T`). -/
+theorem c03_witness_default_piped : ¬ c03_wrapped_full .ptrTy false := by
+  intro hfull
+  have := hfull [.dflt true] [.pipe]
+  revert this; decide
+
+/-- **A non-nil input is not affected by the modifiers, under every wrapper chain**: result and
+    callback log are those of the unmodified base schema under the same wrappers, namely the base
+    verdict followed by every wrapper once in order. -/
+theorem c03_wrapped_nonnil (adm : Bool) (i : I) (ws : List W) (valid : Bool) :
+    (wrap i ws).parse adm (if valid then .valid else .invalid) = specValW valid ws ∧
+    (wrap i ws).parse adm (if valid then .valid else .invalid) =
+      (wrap {} ws).parse adm (if valid then .valid else .invalid) := by
+  cases valid <;> simp [c03_wrapped_plain, In.isNil, specValW, parseBase]
+
+/-- Non-vacuity of the wrapper theorems: a default under three chained transforms, a prefault under
+    transform–pipe–transform, and an Optional nil under two transforms. -/
+example :
+    (wrap (applyAll .ptrTy {} [.dflt true, .optional]) [.tf, .tf, .tf]).parse false .nil
+      = (.ok (.src (.dflt false)), []) ∧
+    (wrap (applyAll .ptrTy {} [.prefault true]) [.tf, .pipe, .tf]).parse false .nil
+      = (.ok (.app 3 (.app 1 (.src (.prefaultOk false)))),
+         [⟨false, 1, .src (.prefaultOk false)⟩, ⟨true, 2, .app 1 (.src (.prefaultOk false))⟩,
+          ⟨false, 3, .app 1 (.src (.prefaultOk false))⟩]) ∧
+    (wrap (applyAll .ptrTy {} [.optional]) [.tf, .tf]).parse false .nil
+      = (.ok (.app 2 (.app 1 (.src .nil))), [⟨false, 1, .src .nil⟩, ⟨false, 2, .app 1 (.src .nil)⟩]) ∧
+    (wrap (applyAll .ptrTy {} [.nonOptional]) [.tf, .pipe]).parse false .nil = (.err .nonOptional, []) := by
+  decide
+
 /-- Non-vacuity: clean histories of every shape exist and exercise every branch. -/
 example : clean [.optional, .dflt false, .nonOptional, .prefaultFn true] = true ∧
     nilOutcome false (applyAll .ptrTy {} [.optional, .dflt false, .nonOptional, .prefaultFn true]) = .dflt false ∧
